@@ -20,7 +20,8 @@ type VerifRaftFilter struct {
 	rafthttp.Raft
 	mu        sync.RWMutex
 	blocked   map[uint64]bool
-	holdFrom  uint64
+	holdFrom  uint64 // 0 = any sender
+	ceiling   uint64 // > 0: drop messages that carry a commit index above it
 	holdTypes map[raftpb.MessageType]bool
 	held      []raftpb.Message
 }
@@ -28,8 +29,8 @@ type VerifRaftFilter struct {
 // Process implements rafthttp.Raft.
 func (f *VerifRaftFilter) Process(ctx context.Context, m raftpb.Message) error {
 	f.mu.Lock()
-	drop := f.blocked[m.From]
-	if !drop && f.holdTypes != nil && m.From == f.holdFrom && f.holdTypes[m.Type] {
+	drop := f.blocked[m.From] || (f.ceiling > 0 && m.Commit > f.ceiling)
+	if !drop && f.holdTypes != nil && (f.holdFrom == 0 || m.From == f.holdFrom) && f.holdTypes[m.Type] {
 		f.held = append(f.held, m)
 		drop = true
 	}
@@ -41,7 +42,7 @@ func (f *VerifRaftFilter) Process(ctx context.Context, m raftpb.Message) error {
 }
 
 // SetHold makes the filter keep (instead of delivering) the messages of the given types that arrive
-// from replica `from`; no types = hold nothing (already held messages stay until Release).
+// from replica `from` (0 = from anybody); no types = hold nothing (already held messages stay until Release).
 func (f *VerifRaftFilter) SetHold(from uint64, types []raftpb.MessageType) {
 	f.mu.Lock()
 	f.holdFrom = from
@@ -52,6 +53,14 @@ func (f *VerifRaftFilter) SetHold(from uint64, types []raftpb.MessageType) {
 			f.holdTypes[t] = true
 		}
 	}
+	f.mu.Unlock()
+}
+
+// SetCommitCeiling makes the filter drop every message that carries a commit index above c (0 = off):
+// the replica keeps receiving log entries but does not learn that they are committed.
+func (f *VerifRaftFilter) SetCommitCeiling(c uint64) {
+	f.mu.Lock()
+	f.ceiling = c
 	f.mu.Unlock()
 }
 
